@@ -22,7 +22,7 @@ import (
 )
 
 func init() {
-	register(&Prop{ID: "C18", Gen: genC18, Run: runC18, Timeout: 30 * time.Second})
+	register(&Prop{ID: "C18", Gen: genC18, Run: runC18, Timeout: 150 * time.Second})
 }
 
 type g2Side struct {
@@ -103,7 +103,7 @@ func genC18(r *Rand, n int, tier string, emit func(string)) {
 			sm = Pick(r, cm+1, cm-1, magics[r.Intn(len(magics))]) & 0xffffffff
 		}
 		c := g2GenSide(r, ct, cm, true)
-		s := g2GenSide(r, st, sm, false)
+		s := g2GenSide(r, st, sm, true) // an empty responder table refuses with an empty list
 		c.q = r.Chance(1, 6)
 		s.q = r.Chance(1, 8)
 		emit("hs " + c.String() + " " + s.String())
@@ -209,13 +209,26 @@ func runC18(op string) string {
 			stop func()
 		}
 		sch := make(chan sideRes, 1)
+		cch := make(chan sideRes, 1)
 		go func() {
-			r, stop := g2RunHandshake(b, true, smode, svm, 4*time.Second)
+			r, stop := g2RunHandshake(b, true, smode, svm)
 			sch <- sideRes{r, stop}
 		}()
-		cr, cstop := g2RunHandshake(a, false, cmode, cvm, 4*time.Second)
+		go func() {
+			r, stop := g2RunHandshake(a, false, cmode, cvm)
+			cch <- sideRes{r, stop}
+		}()
+		// Event order instead of waiting out a deadline: a responder that ends with an error has
+		// (SendMessageAndWait) already written its reply; closing its end then lets an initiator
+		// that was sent nothing fail at once. A responder that finished may still have the
+		// acceptance queued, so it is only stopped after the initiator is done.
 		sr := <-sch
-		cstop()
+		if sr.r.kind != "finished" {
+			sr.stop()
+		}
+		cres := <-cch
+		cr := cres.r
+		cres.stop()
 		sr.stop()
 		return "c=" + cr.String() + " s=" + sr.r.String()
 	case "prop":
@@ -259,18 +272,37 @@ func runC18(op string) string {
 		}
 		sch := make(chan sideRes, 1)
 		go func() {
-			r, stop := g2RunHandshake(b, true, smode, svm, 4*time.Second)
+			r, stop := g2RunHandshake(b, true, smode, svm)
 			sch <- sideRes{r, stop}
 		}()
 		if err := g2WriteSegment(a, 0x0000, payload); err != nil {
 			return "write-failed"
 		}
-		msg := "none"
-		_ = a.SetReadDeadline(time.Now().Add(2 * time.Second))
-		if id, resp, err := g2ReadSegment(a); err == nil {
-			msg = g2RenderServerMsg(id, resp)
+		type segRes struct {
+			id   uint16
+			data []byte
+			err  error
 		}
+		rch := make(chan segRes, 1)
+		go func() {
+			id, resp, err := g2ReadSegment(a)
+			rch <- segRes{id, resp, err}
+		}()
+		// as above: an erroring responder has written whatever it sends; stop it so that the
+		// reader sees EOF instead of waiting when nothing was sent
 		sr := <-sch
+		if sr.r.kind != "finished" {
+			sr.stop()
+		}
+		msg := "none"
+		select {
+		case seg := <-rch:
+			if seg.err == nil {
+				msg = g2RenderServerMsg(seg.id, seg.data)
+			}
+		case <-time.After(g2Deadline()):
+			g2NoteExpired()
+		}
 		sr.stop()
 		return "s=" + sr.r.String() + " msg=" + msg
 	}
